@@ -552,3 +552,69 @@ def vg2c(P, C):
         ok = not late and wide
         det = "guard `%s` dominates the padded allocation and the pixel read: %s; evaluated in 64 bits: %s" % (cand["text"][:80], not late, wide)
     C.ob("VG-2c", "read_fits_core", "order-checked-before-padding", ok, f.loc(allocs[0]), det)
+
+
+def vg2e(P, C):
+    """VG-2e: the number of coefficients announced by the image axes is representable before it sizes the array."""
+    C.rule("VG-2e", "in the reader the product of the image axis lengths — numbers taken from the file — sizes the coefficient array and the pixel "
+           "read; a throwing guard that bounds the running product (`product > LIMIT / axis`, or a checked multiplication builtin), evaluated "
+           "for every axis, dominates the allocation of the coefficients: four axes of 65536 multiply to 2^64 = 0, the array has no element, "
+           "every per-dimension check passes, and evaluation reads outside it", floor=1)
+    f = [g for g in P.fns("read_fits_core") if g.unit == "driver"][0]
+    allocs = [y for y in f.walk() if ts.assign_parts(f, y) and ts.assign_parts(f, y)[1] is not None and ts.root_member(f, ts.assign_parts(f, y)[0]) and
+              ts.root_member(f, ts.assign_parts(f, y)[0])[:2] == ("coefficients", 0) and "allocate" in f.render(ts.assign_parts(f, y)[1])]
+    if len(allocs) != 1:
+        raise core.AnalysisBroken("VG-2e: allocation of the coefficient array not found (%d)" % len(allocs))
+    pos = f.node_positions()
+    dom = f.dominators()
+
+    def at(i):
+        while i >= 0 and i not in pos:
+            i = f.parent[i]
+        return pos.get(i)
+
+    def axis_rooted(x):
+        t = f.render(x).replace("this->", "")
+        return bool(re.search(r"\bnaxes(_temp)?\b", t))
+    cand = None
+    for g in guards_of(f):
+        cond = f.nodes[g["node"]]["cond"]
+        hit = False
+        for x in f.walk(cond):
+            n = f.nodes[x]
+            if n["k"] == "BinaryOperator" and n.get("op") == "/" and axis_rooted(n["ch"][1]):
+                hit = True
+            if (n.get("callee") or {}).get("name", "").startswith(("__builtin_mul_overflow", "__builtin_umul")) and any(axis_rooted(a) for a in f.args(x)):
+                hit = True
+        if hit and g["loops"]:
+            cand = g
+            break
+    ok, det = False, "no throwing guard bounds the product of the axis lengths before it sizes the coefficient array"
+    if cand is not None:
+        # the leftmost leaf of the condition is evaluated in every iteration: its block is the one that has to dominate
+        first = f.strip(f.nodes[cand["node"]]["cond"])
+        while f.k(first) == "BinaryOperator" and f.nodes[first].get("op") in ("&&", "||"):
+            first = f.strip(f.nodes[first]["ch"][0])
+        pg = None
+        for x in [first] + list(f.walk(first)):
+            if x in pos:
+                pg = pos[x]
+                break
+        px = at(allocs[0])
+        # the guard sits in a loop that runs before the allocation: the loop's head dominates the allocation, the guard is evaluated
+        # in every iteration (its first leaf is dominated by nothing but the head inside the body: it is a statement of the body itself)
+        L = cand["loops"][0]
+        ph = None
+        if f.nodes[L].get("cond", -1) >= 0:
+            for x in [f.strip(f.nodes[L]["cond"])] + list(f.walk(f.nodes[L]["cond"])):
+                if x in pos:
+                    ph = pos[x]
+                    break
+        body = f.nodes[L].get("body", -1)
+        top_level = body >= 0 and (cand["node"] == body or (f.k(body) == "CompoundStmt" and cand["node"] in f.ch(body)))
+        ok = bool(ph and px and ph[0] in dom.get(px[0], ()) and top_level and px[0] not in {pos[y][0] for y in f.walk(L) if y in pos})
+        pg = ph
+        full = re.match(r"\(?\s*\w+\s*<\s*(this->)?ndim\s*\)?$", f.render(f.nodes[L]["cond"]).strip()) is not None if f.nodes[L].get("cond", -1) >= 0 else False
+        ok = ok and full
+        det = "guard `%s`, evaluated for every axis (%s), dominates the allocation of the coefficients (%s)" % (cand["text"][:90], full, bool(pg and px and pg[0] in dom.get(px[0], ())))
+    C.ob("VG-2e", "read_fits_core", "axis-product-bounded", ok, f.loc(allocs[0]), det)
